@@ -229,15 +229,18 @@ def run_case(case):
                 d = run.diff(o, other, ["lines", "vars", "scan_count", "match_count", "is_valid"])
                 if d:
                     bad("print-mode changed the run", [x[0] for x in d], [], cstr)
-        # R5 unmatched-mode
+        # R5 unmatched-mode: collected + unmatched = exactly the records read (every physical record up to the last one read, blank
+        # records included), each once, each in file order
         if vec[1] == 1:
-            cons = [r for r in nonblank if int(r[-1]) <= (o["last_line"] if o["last_line"] is not None else -1)]
-            um = [r for r in (o["unmatched"] or []) if len(r) > 0]  # blank records: neither required nor forbidden
-            merged = sorted((o["lines"] or []) + um, key=lambda r: int(r[-1]))
-            if merged != cons:
-                bad("unmatched-mode keep: collected + unmatched != the records read, each once", (o["lines"], um), cons, cstr)
-            if um != sorted(um, key=lambda r: int(r[-1])) or (o["lines"] or []) != sorted(o["lines"] or [], key=lambda r: int(r[-1])):
-                bad("unmatched-mode keep: not in file order", (o["lines"], um), "file order", cstr)
+            last = o["last_line"] if o["last_line"] is not None else -1
+            coll = o["lines"] or []
+            coll_idx = [int(r[-1]) for r in coll]
+            exp_um = [r for i, r in enumerate(rows) if i <= last and not (r and int(r[-1]) in coll_idx)]
+            um = o["unmatched"] or []
+            if um != exp_um:
+                bad("unmatched-mode keep: collected + unmatched != the records read, each once, in file order", (coll, um), (coll, exp_um), cstr)
+            if coll_idx != sorted(coll_idx) or len(set(coll_idx)) != len(coll_idx):
+                bad("unmatched-mode keep: collected lines not in file order / repeated", coll, "file order", cstr)
             other = obs[(vec[0], 0) + vec[2:]]
             if other["exc"] is None and other["lines"] != o["lines"]:
                 bad("unmatched-mode changed the collected lines", o["lines"], other["lines"], cstr)
